@@ -20,7 +20,7 @@ from mc.ref import xsd as R
 SIGMA_CAP = {'quick': 3, 'thorough': 4}
 DEPTH = {'quick': 2, 'thorough': 2}
 PROBES = ['', ' ', 'a', 'yes', 'no', 0, 1, 1.0, 2, 2.0, -1, 1.5, 100, 100.0, 17, '#000000', '2000-01-01', 'C', 'quarter', 'also-bottom', 'up',
-          'start', 'normal', 'accSharp']
+          'start', 'normal', 'accSharp', ('wrongly', 'typed')]   # the tuple: a value of the wrong Python type (TypeError text)
 
 
 def ops_small(T, tier):
